@@ -488,7 +488,12 @@ def fattree_case(rng, stats, bad, k, e2e):
         chosen = [fl for fl in flows.values() if rng.random() < 0.7] or list(flows.values())
         flows = {f"job-{j}": fl for j, fl in enumerate(chosen)}
         stats["fattree_flow_dicts_rekeyed"] += 1
-    ft.generate_fib(flows, tcp=tcp)
+    try:
+        ft.generate_fib(flows, tcp=tcp)
+    except Exception as e:
+        bad(f"exception:{type(e).__name__}@FatTree.generate_fib", "generating the forwarding tables raised",
+            {"exc": repr(e)[:150], "flow_dict_keys": sorted(map(str, flows))[:4], "tcp": tcp})
+        return False
     if rng.random() < 0.35:
         # a second, independent tree of the same size gets its own flows and tables: this must not disturb the first
         other = FatTree(k)
